@@ -68,6 +68,7 @@ var gfTargets = []gfTarget{
 	{"istep", "core/schedule/instance_step.go", "gen_prog_istep", []string{"NewInstanceStep"}, false},             // C12
 	{"waiter", "core/coreutil/waiter.go", "gen_prog_waiter", []string{"Waiter.IsSlowDown", "Waiter.Wait", "Waiter.IsFinished"}, false}, // C04 (IsFinished: also C03)
 	{"instance", "core/engine/instance.go", "gen_prog_instance", []string{"instance.Run"}, true},                   // C03
+	{"runinst", "core/engine/engine.go", "gen_prog_runinst", []string{"runNewInstance"}, true},                     // C05
 }
 
 // constructors whose single composite-literal argument wraps the value that is returned
@@ -82,6 +83,9 @@ var gfQualConst = map[string]string{
 // package-qualified functions that are external calls (answered by the oracle of the bridge)
 var gfExternal = map[string]bool{"strconv.Atoi": true, "time.Now": true, "time.NewTimer": true,
 	"netsample.DiscardedShootSample": true}
+
+// plain functions of the same package that are external calls in traced targets (not translated themselves)
+var gfExternalIdent = map[string]bool{"newInstance": true}
 
 // package-qualified constructors of opaque values: `x := ctor(args)` declares x opaque (only method calls
 // on it are possible) and is an external call without arguments
@@ -309,6 +313,7 @@ type gfCall struct {
 	kind   string // "SCall" | "SExt"
 	name   string
 	args   []string
+	targs  []string // the arguments recorded in the trace (scalars only)
 	traced bool
 }
 
@@ -321,6 +326,10 @@ func (t *gfFn) classifyCall(c *ast.CallExpr, calls bool) (*gfCall, bool, error) 
 	case *ast.Ident:
 		if _, isVar := t.lookupVar(fun.Name); isVar {
 			return nil, false, t.errf(c, "call of a function value %s", fun.Name)
+		}
+		if t.f.traced && gfExternalIdent[fun.Name] && !t.f.inProg[fun.Name] {
+			kind = "SExt"
+			break
 		}
 		if !t.f.inProg[fun.Name] {
 			return nil, false, nil
@@ -350,13 +359,42 @@ func (t *gfFn) classifyCall(c *ast.CallExpr, calls bool) (*gfCall, bool, error) 
 		if _, isField := t.fieldVar(fun.X); fun.Sel.Name == "Sub" && len(c.Args) == 1 && (isField || (isVar && !t.opaque[root.Name])) {
 			return nil, false, nil // t.Sub(u) on a time value: pure, handled by expr
 		}
+		handle := ""
 		switch {
 		case t.opaque[root.Name]:
 			kind = "SExt" // method of an opaque parameter / of a field of it
 		case !isVar && (gfExternal[name] || gfOpaqueCtor[name]):
 			kind = "SExt"
+		case t.f.traced && isVar && fun.X == ast.Expr(root):
+			// method of a local handle (the scalar result of an earlier external call): external call that
+			// gets the handle as its first argument
+			if k, _ := t.lookupVar(root.Name); k != gkScalar {
+				return nil, false, nil
+			}
+			kind = "SExt"
+			handle = root.Name
 		default:
 			return nil, false, nil
+		}
+		if handle != "" {
+			if !calls {
+				return nil, false, t.errf(c, "call of %s where calls are not allowed (under && / ||, in a loop header)", name)
+			}
+			res := &gfCall{kind: kind, name: name, traced: true, args: []string{"EVar " + gfQ(handle)}, targs: []string{"EVar " + gfQ(handle)}}
+			for _, a := range c.Args {
+				if id, ok := a.(*ast.Ident); ok && t.opaque[id.Name] {
+					continue
+				}
+				s, err := t.expr(a, true)
+				if err != nil {
+					return nil, false, err
+				}
+				res.args = append(res.args, s)
+				if t.scalarArg(a) {
+					res.targs = append(res.targs, s)
+				}
+			}
+			return res, true, nil
 		}
 	default:
 		return nil, false, t.errf(c, "unsupported callee %s", name)
@@ -377,8 +415,24 @@ func (t *gfFn) classifyCall(c *ast.CallExpr, calls bool) (*gfCall, bool, error) 
 			return nil, false, err
 		}
 		res.args = append(res.args, s)
+		if t.scalarArg(a) {
+			res.targs = append(res.targs, s)
+		}
 	}
 	return res, true, nil
+}
+
+// scalarArg: the argument is recorded in the trace (SAppend records integers only): anything but an array variable
+func (t *gfFn) scalarArg(a ast.Expr) bool {
+	if id, ok := a.(*ast.Ident); ok {
+		if k, isVar := t.lookupVar(id.Name); isVar && k != gkScalar {
+			return false
+		}
+	}
+	if _, ok := a.(*ast.BasicLit); ok && a.(*ast.BasicLit).Kind == token.STRING {
+		return false
+	}
+	return true
 }
 
 func (c *gfCall) stmt(xs []string) []string {
@@ -388,7 +442,7 @@ func (c *gfCall) stmt(xs []string) []string {
 	}
 	if c.traced {
 		// record the call, pass the call number as the last argument, count the call
-		out = append(out, fmt.Sprintf("SAppend %s %s [%s]", gfQ("$trace"), gfQ(c.name), strings.Join(c.args, "; ")))
+		out = append(out, fmt.Sprintf("SAppend %s %s [%s]", gfQ("$trace"), gfQ(c.name), strings.Join(c.targs, "; ")))
 		args := append(append([]string{}, c.args...), "EVar "+gfQ("$n"))
 		out = append(out, fmt.Sprintf("%s %s %s [%s]", c.kind, gfStrList(xs), gfQ(c.name), strings.Join(args, "; ")))
 		return append(out, fmt.Sprintf("SAssign [%s] [EBin OAdd (EVar %s) (ELit 1)]", gfQ("$n"), gfQ("$n")))
@@ -949,6 +1003,14 @@ func (t *gfFn) stmt(st ast.Stmt) ([]string, error) {
 		}
 		if len(t.fnDefers) > 0 {
 			// return e  =  results = e ; deferred statements ; return results
+			if len(t.named) == 0 && t.nres > 0 {
+				// unnamed results: evaluate them into "$r<i>" first, run the deferred statements, return them
+				for i := 0; i < t.nres; i++ {
+					v := fmt.Sprintf("$r%d", i)
+					t.named = append(t.named, v)
+					t.noteLocal(v, gkScalar)
+				}
+			}
 			if len(t.named) != t.nres {
 				return nil, t.errf(x, "deferred statements need named results")
 			}
@@ -1008,6 +1070,24 @@ func (t *gfFn) stmt(st ast.Stmt) ([]string, error) {
 		return append(t.takePre(), t.retTuple(vals)), nil
 	case *ast.DeferStmt:
 		// function level only (the first statements of the body): defer func() { ... }()
+		if _, isLit := x.Call.Fun.(*ast.FuncLit); !isLit && t.f.traced && len(t.scopes) == 1 && t.closure == nil {
+			// defer f(args) / defer h.M(args) at function level: an external call run before every later return;
+			// arguments must be plain variables (evaluated now = at the return as long as they are not assigned later: refused otherwise)
+			for _, a := range x.Call.Args {
+				if _, ok := a.(*ast.Ident); !ok {
+					return nil, t.errf(x, "argument of a deferred call is not a plain variable")
+				}
+			}
+			call, isCall, err := t.classifyCall(x.Call, true)
+			if err != nil {
+				return nil, err
+			}
+			if !isCall || call.kind != "SExt" || len(t.pre) != 0 {
+				return nil, t.errf(x, "deferred call is not a plain external call")
+			}
+			t.fnDefers = append([]string{gfSeq(call.stmt(nil))}, t.fnDefers...)
+			return nil, nil
+		}
 		fl, ok := x.Call.Fun.(*ast.FuncLit)
 		if !ok || len(x.Call.Args) != 0 || len(fl.Type.Params.List) != 0 || len(t.scopes) != 1 || t.closure != nil || !t.f.traced {
 			return nil, t.errf(x, "defer is supported only as a function-level `defer func() { ... }()` (traced targets) and inside an inlined func literal")
